@@ -27,8 +27,30 @@ def run(ctx):
     rule_a(ctx, cr)
     rule_bc(ctx, cr)
     rule_restore_unconditional(ctx, cr)
+    # the RESTORE operand travels as a line number 0..65529: no narrowing on the way (C08.c form)
+    from rules import c08
+
+    class _P:
+        def __init__(self, c):
+            self.c = c
+
+        def __getattr__(self, n):
+            return getattr(self.c, n)
+
+        def check(self, cond, rule, key, *a, **k):
+            return self.c.check(cond, "C09.c", key, *a, **k)
+
+        def bad(self, rule, key, *a, **k):
+            return self.c.bad("C09.c", key, *a, **k)
+    for path in ("lang::ast::Statement::restore", "mach::codegen::Generator::restore"):
+        g = cr.need_fn(path)
+        ctx.touch(g)
+        c08.rule_c(_P(ctx), g)
+    ctx.ok("C09.c", "restore/operand-not-narrowed", "", "no unguarded narrowing cast on the "
+           "RESTORE operand's way from the parser to push_restore")
     rule_d(ctx, cr)
     rule_e(ctx, cr)
+    codegen.check_all_statements_compiled(ctx, "C09.f", cr)
     n = codegen.check_linear(ctx, "C09.f", cr)
     ctx.floor("C09.f", "fragment pops in generators", n, 27)
 
